@@ -167,6 +167,11 @@ class AttrHarness(object):
                             "vkey": "attrs/empty-diagnostic"}
                 if self.twin:
                     return {"cls": cls, "violation": self.witness("reachability twin"), "vkey": "twin"}
+                ok = documented_valid(self.kind, self.shape, self.picks)
+                if ok:
+                    return {"cls": cls + "/rejected-valid",
+                            "violation": self.witness("rejected (%s) although %s" % (str(value).strip().splitlines()[0][:80], ok), {"valid": ok}),
+                            "vkey": "attrs/rejected-valid:" + ok[:50]}
                 return {"cls": cls + "/rejected", "sample": self.witness(None)}
             site = site_of(value)
             via = via_of(value)
@@ -223,6 +228,44 @@ def documented_misuse(kind, shape, picks):
     if "rank" in attrs and attrs.get("dimension") not in (None, ""):
         # (an empty `+dimension()` is not covered by the documented rule and is left out)
         return "rank and dimension cannot be specified together"
+    return None
+
+
+DEREF_VALUES = ("allocatable", "pointer", "raw", "scalar")
+
+
+def documented_valid(kind, shape, picks):
+    """Attribute uses the documentation presents as legal (docs/input.rst, section Attributes; docs/pointers.rst;
+    appendix A): a rejected path that matches one is a rejection of a documented declaration.  Deliberately small:
+    only combinations the text states outright."""
+    attrs = dict(p for p in picks if p is not None)
+    if any(isinstance(v, str) and v.startswith("=") for v in attrs.values()):
+        return None
+    names = set(attrs)
+    if not names:
+        return None
+    if kind == "arg":
+        text = ARG_SHAPES[shape]
+        if "{A}" in text or "(*" in text:
+            return None
+        indirect = "*" in text or "&" in text
+        if names <= {"deref", "intent"} and "deref" in names and attrs["deref"] in DEREF_VALUES \
+                and attrs.get("intent", "out") == "out" and indirect:
+            return "deref(%s) on a pointer or reference argument is documented (how to dereference pointers returned via an argument)" % attrs["deref"]
+        if names == {"intent"} and (attrs["intent"] == "in" or (attrs["intent"] in ("out", "inout") and indirect)):
+            return "intent(%s) on this argument is documented" % attrs["intent"]
+        if text in ("int *p", "const int *p"):
+            if names == {"rank"} and attrs["rank"] in ("0", "1", "2", "7"):
+                return "rank(0-7) on a pointer to a native type is documented"
+            if names == {"dimension"} and attrs["dimension"] in ("n", "n+1,2"):
+                return "dimension(%s) on a pointer to a native type is documented" % attrs["dimension"]
+    elif kind == "result":
+        text = RESULT_SHAPES[shape]
+        indirect = "*" in text or "&" in text
+        if names == {"deref"} and attrs["deref"] in DEREF_VALUES and indirect:
+            return "deref(%s) on a function returning a pointer or reference is documented" % attrs["deref"]
+        if names == {"owner"} and attrs["owner"] in ("caller", "library") and text.endswith("*"):
+            return "owner(%s) on a function returning a pointer is documented" % attrs["owner"]
     return None
 
 
@@ -370,6 +413,8 @@ def confirm(w):
         else:
             generate_only(copy.deepcopy(w["input"]))
     except OK_EXC as ex:
+        if w.get("valid"):
+            return True, {"outcome": "rejected", "message": str(ex)[:200]}
         return (w.get("what") == "rejected without any message" and not str(ex).strip()), {"outcome": "rejected", "message": str(ex)[:200]}
     except Exception as ex:
         site = site_of(ex)
